@@ -480,7 +480,27 @@ func propC13LockConcurrent(t *rapid.T) {
 	syncEvery := rapid.IntRange(1, 5).Draw(t, "syncEvery")
 	dumpProgram(map[string]any{"property": "C13", "goroutines": g, "ops": per, "syncEvery": syncEvery})
 	sink := &overlapSink{}
-	lk := zapcore.Lock(sink)
+	// what sits between the lock and the (not thread-safe) sink: nothing, the combined-syncer constructor, or a
+	// BufferedWriteSyncer with a tiny buffer (writes larger than it go through, syncs flush): in every case all
+	// calls that reach the sink are mutually exclusive
+	wrap := rapid.SampledFrom([]string{"direct", "direct", "combine", "lock(buffered)", "combine(buffered)", "buffered(lock)"}).Draw(t, "between")
+	var lk zapcore.WriteSyncer
+	var bws *zapcore.BufferedWriteSyncer
+	switch wrap {
+	case "direct":
+		lk = zapcore.Lock(sink)
+	case "combine":
+		lk = zap.CombineWriteSyncers(sink)
+	case "lock(buffered)":
+		bws = &zapcore.BufferedWriteSyncer{WS: sink, Size: 2, FlushInterval: time.Hour}
+		lk = zapcore.Lock(bws)
+	case "combine(buffered)":
+		bws = &zapcore.BufferedWriteSyncer{WS: sink, Size: 2, FlushInterval: time.Hour}
+		lk = zap.CombineWriteSyncers(bws)
+	case "buffered(lock)":
+		bws = &zapcore.BufferedWriteSyncer{WS: zapcore.Lock(sink), Size: 2, FlushInterval: time.Hour}
+		lk = bws
+	}
 	var wg sync.WaitGroup
 	for i := 0; i < g; i++ {
 		wg.Add(1)
@@ -490,19 +510,22 @@ func propC13LockConcurrent(t *rapid.T) {
 				if (i+j)%syncEvery == 0 {
 					_ = lk.Sync()
 				} else {
-					_, _ = lk.Write([]byte("x"))
+					_, _ = lk.Write([]byte("xyz"))
 				}
 			}
 		}(i)
 	}
 	wg.Wait()
-	if n := sink.overlaps.Load(); n != 0 {
-		t.Fatalf("%d overlapping Write/Sync calls reached the sink behind Lock", n)
+	if bws != nil {
+		_ = bws.Stop()
 	}
-	if sink.writes.Load()+sink.syncs.Load() != int64(g*per) {
+	if n := sink.overlaps.Load(); n != 0 {
+		t.Fatalf("%d overlapping Write/Sync calls reached the sink (%s)", n, wrap)
+	}
+	if bws == nil && sink.writes.Load()+sink.syncs.Load() != int64(g*per) {
 		t.Fatalf("sink saw %d calls, want %d", sink.writes.Load()+sink.syncs.Load(), g*per)
 	}
-	statCase("C13", true, fmt.Sprintf("lock|g%d per%d s%d", g, per/10, syncEvery), "concurrent Lock")
+	statCase("C13", true, fmt.Sprintf("lock|%s|g%d per%d s%d", wrap, g, per/10, syncEvery), "concurrent Lock", "between lock and sink: "+wrap)
 }
 
 func TestC13Writers(t *testing.T)        { rapid.Check(t, propC13Writers) }
